@@ -166,7 +166,8 @@ fn main() {
                 // heavy families (thousands of items or dozens of peers per run) get 1 run in 40
                 let heavy: Vec<&Fam> = fams.iter().filter(|f| matches!(f.1, "firehose" | "burst")).collect();
                 let light: Vec<&Fam> = fams.iter().filter(|f| !matches!(f.1, "firehose" | "burst")).collect();
-                let (engine, family, only) = if !heavy.is_empty() && i % 40 == 7 {
+                // (not under Miri: a firehose history would take hours to interpret)
+                let (engine, family, only) = if !heavy.is_empty() && i % 40 == 7 && !cfg!(miri) {
                     *heavy[((i / 40) % heavy.len() as u64) as usize]
                 } else {
                     *light[(i % light.len() as u64) as usize]
